@@ -7,8 +7,10 @@ git -C /repo diff --quiet || { echo "/repo is dirty"; exit 9; }
 git -C /repo apply "$PWD/seeded/$M/patch.diff" || { echo "patch does not apply"; exit 9; }
 trap 'git -C /repo checkout -- . ' EXIT INT TERM
 for P in "$@"; do
+  [ -f "evidence/$P.json" ] && cp "evidence/$P.json" "/tmp/evidence_$P.json.bak"
   ./bin/check "$P" --tier "${TIER:-quick}" > "/tmp/mut_${M}_${P}.log" 2>&1; code=$?
   echo "== $M vs $P: exit $code"
   grep -E "^(VIOLATION|KNOWN-FINDING|UNDECIDED|ENGINE-ERROR)" "/tmp/mut_${M}_${P}.log" | cut -c1-260 | head -12
   tail -1 "/tmp/mut_${M}_${P}.log" | cut -c1-200
+  [ -f "/tmp/evidence_$P.json.bak" ] && mv "/tmp/evidence_$P.json.bak" "evidence/$P.json"
 done
